@@ -178,7 +178,7 @@ theorem coll_update_ok (cfg : Cfg M K R) (h : EqRefl cfg.ops) (s : CState M R) (
                         old := if (old.isNone || (c1.created.isSome && !c1.createdMeanwhile)) then none else old,
                         new := some new }],
            idCalls := c1.idCalls, createdCalls := c1.createdCalls }, (updateTimeC cfg wr st2).2) := by
-  unfold Coll.update
+  unfold Coll.update Coll.updateAt
   simp only [hv, gau_ok cfg.ops h _ _ _ _ _ _ h1 h2, changeFn_eq]
   cases Spec.newValue cfg.ops wr (fieldUpdater cfg wr) msg old (old.getD cfg.ops.zero) with
   | error e => rfl
@@ -191,7 +191,7 @@ theorem coll_update_err (cfg : Cfg M K R) (s : CState M R) (id : String) (msg : 
             = (.error e, c1)) :
     Coll.update cfg s id msg wr =
       ({ val := none, err := some e, events := [], idCalls := c1.idCalls, createdCalls := c1.createdCalls }, c1.st) := by
-  unfold Coll.update
+  unfold Coll.update Coll.updateAt
   simp only [hv, gau_err cfg.ops _ _ _ _ _ _ h1]
 
 theorem lookup_setItem_fun (items : List (String × Item M)) (id : String) (it : Item M) :
@@ -230,7 +230,7 @@ theorem coll_update_eq (cfg : Cfg M K R) (h : EqRefl cfg.ops) (s : CState M R) (
     (Coll.update cfg s id msg wr).1 = (Spec.update cfg (abs s) id msg wr).1 ∧
     abs (Coll.update cfg s id msg wr).2 = (Spec.update cfg (abs s) id msg wr).2 := by
   cases hv : cfg.ops.validate (fieldUpdater cfg wr) msg with
-  | some c => simp [Coll.update, Spec.update, hv, failOut]
+  | some c => simp [Coll.update, Coll.updateAt, Spec.update, hv, failOut]
   | none =>
     have hused : (fun k => ((abs s).m k).isSome) = usedIn s.items := rfl
     have habsrng : (abs s).rng = s.rng := rfl
